@@ -53,13 +53,18 @@ class FakeBleClient:
         return self.mtu - 3 - overhead
 
     async def write_gatt_char(self, handle, data, response):
-        await self.rig.gate("write", handle.iid, bytes(data))
+        how = await self.rig.gate("write", handle.iid, bytes(data))
         if not self.is_connected:
             from bleak.exc import BleakError
 
             raise BleakError("Not connected")
         self.ops.append(("write", handle.iid, len(data)))
         self.acc.gatt_write(handle.iid, bytes(data))
+        if how == "ack-lost":
+            # the write reached the accessory, its acknowledgement did not reach us: the stack reports a failure while the link stays up
+            from bleak.exc import BleakError
+
+            raise BleakError("Write acknowledgement not received")
 
     async def read_gatt_char(self, handle):
         iid = handle.iid if isinstance(handle, Handle) else handle
